@@ -7,6 +7,10 @@ fn to_ase(e: std::io::Error) -> AsepriteParseError {
     e.into()
 }
 
+// Sizes and counts declared inside a file are not trustworthy. Never reserve
+// more than this up-front on their behalf; buffers grow as data arrives.
+const MAX_PREALLOC: usize = 64 * 1024;
+
 pub(crate) struct AseReader<T: Read> {
     input: T,
 }
@@ -54,17 +58,31 @@ where
         Ok(s)
     }
 
-    pub(crate) fn read_exact(&mut self, buffer: &mut [u8]) -> Result<()> {
-        self.input.read_exact(buffer).map_err(to_ase)
-    }
-
     pub(crate) fn skip_reserved(&mut self, count: usize) -> Result<()> {
         let mut ignored = vec![0_u8; count];
         self.input.read_exact(&mut ignored).map_err(to_ase)
     }
 
+    /// Read exactly `count` bytes into a new buffer. Unlike `vec![0; count]`
+    /// followed by `read_exact`, the buffer only grows as data actually
+    /// arrives, so a bogus `count` cannot reserve memory the input does not
+    /// back up.
+    pub(crate) fn read_vec(&mut self, count: usize) -> Result<Vec<u8>> {
+        let mut output = Vec::with_capacity(count.min(MAX_PREALLOC));
+        (&mut self.input)
+            .take(count as u64)
+            .read_to_end(&mut output)?;
+        if output.len() != count {
+            return Err(to_ase(std::io::Error::new(
+                std::io::ErrorKind::UnexpectedEof,
+                "failed to fill whole buffer",
+            )));
+        }
+        Ok(output)
+    }
+
     pub(crate) fn take_bytes(self, limit: usize) -> Result<Vec<u8>> {
-        let mut output = Vec::with_capacity(limit);
+        let mut output = Vec::with_capacity(limit.min(MAX_PREALLOC));
         self.input.take(limit as u64).read_to_end(&mut output)?;
         if output.len() != limit {
             Err(AsepriteParseError::InvalidInput(format!(
@@ -79,7 +97,7 @@ where
 
     pub(crate) fn unzip(self, expected_output_size: usize) -> Result<Vec<u8>> {
         let mut decoder = ZlibDecoder::new(self.input);
-        let mut buffer = Vec::with_capacity(expected_output_size);
+        let mut buffer = Vec::with_capacity(expected_output_size.min(MAX_PREALLOC));
         decoder.read_to_end(&mut buffer)?;
         Ok(buffer)
     }
